@@ -349,8 +349,12 @@ package consensus
 //@   ensures !held(sigCacheLock) && wfSigCache()
 //@   ensures result1 == nil && blockHash != common.Hash{} ==> len(result0) == 65 && content(result0) == crypto.sigOf(content(blockHash), deputynode.GetSelfNodeKey())
 
+// the comparison with the last signed height and the update are one critical section (opt atomic: a second acquisition of the
+// lock on any path, helpers included, is flagged): split in two, a lower block's write can land after a higher block's and the
+// node then signs a rival block at a height it has signed before
 //@ func (*Confirmer).SetLastSig
 //@   props C19
+//@   opt atomic=c.lastSigLock
 //@   requires c != nil && block != nil && block.Header != nil && !held(c.lastSigLock)
 //@   modifies c.lastSig
 //@   ensures !held(c.lastSigLock)
